@@ -60,10 +60,31 @@ KF_PRE = "requested-core-already-waiting-masks-miss"
 
 def plan(tier):
     n = 600 if tier == "quick" else 16000
-    return [(c, n // 6 if c in ("big", "blocks") else n) for c in CLASSES]
+    return [(c, n // 6 if c in ("big", "blocks") else n) for c in CLASSES] + \
+        [("whole64", 2 if tier == "quick" else 32)]
 
 
 def gen(cls, idx, rng, tier):
+    if cls == "whole64":
+        # the same application on a core of EVERY chip of a 64x64 machine:
+        # the loader names all 4096 chips with one region word of the
+        # coarsest level
+        cs = sorted(rng.sample(range(1, 18), rng.randint(1, 2)))
+        targets = {(x, y): list(cs) for x in range(64) for y in range(64)}
+        for _ in range(rng.randint(0, 5)):
+            xy = (rng.randrange(64), rng.randrange(64))
+            targets[xy] = sorted(set(targets[xy]) |
+                                 {rng.choice([c for c in range(1, 18)
+                                              if c not in cs])})
+        miss = [sorted({(rng.randrange(64), rng.randrange(64))
+                        for _ in range(rng.choice([0, 0, 3]))}), []]
+        return dict(w=64, h=64, dead=[], buf=256,
+                    bins=[dict(size=rng.choice([64, 256, 260]),
+                               fill=rng.randrange(256),
+                               targets=sorted(targets.items()))],
+                    miss=[miss], n_tries=2, wait=idx % 2 == 0,
+                    use_count=idx % 4 < 2, app_id=rng.choice([30, 66, 255]),
+                    pre=[])
     w, h = rng.choice([(1, 1), (2, 2), (3, 3), (4, 2), (4, 4)])
     if cls == "blocks":
         w, h = rng.choice([(8, 4), (4, 8), (8, 8)])
@@ -253,18 +274,23 @@ def run_(case, ctx):
         snapshot = {k: {xy: set(cs) for xy, cs in v.items()}
                     for k, v in amap.items()}
         try:
+            kw = dict(app_id=app_id, n_tries=case["n_tries"],
+                      wait=case["wait"], use_count=case["use_count"])
+            # documented defaults may be left out (wait=False, n_tries=2,
+            # use_count=True): what they are does not depend on what this or
+            # another controller was asked before
+            if (len(images[0]) // 4 + case["n_tries"]) % 2:
+                for k_, dflt in (("wait", False), ("n_tries", 2),
+                                 ("use_count", True)):
+                    if kw[k_] == dflt and type(kw[k_]) is type(dflt):
+                        del kw[k_]
+                        ctx.hit("default_left_out")
             if len(amap) == 1 and (case["n_tries"] + len(images[0])) % 3 == 0:
                 # the other documented call form: file name, then targets
                 ctx.hit("filename_and_targets_form")
-                mc.load_application(names[0], amap[names[0]], app_id=app_id,
-                                    n_tries=case["n_tries"],
-                                    wait=case["wait"],
-                                    use_count=case["use_count"])
+                mc.load_application(names[0], amap[names[0]], **kw)
             else:
-                mc.load_application(amap, app_id=app_id,
-                                    n_tries=case["n_tries"],
-                                    wait=case["wait"],
-                                    use_count=case["use_count"])
+                mc.load_application(amap, **kw)
             outcome, err = "returned", None
         except r.mcm.SpiNNakerLoadingError as e:
             outcome, err = "loading-error", e
